@@ -420,9 +420,12 @@ func checkCacheMergeFold(c *Ctx, rule string) {
 					}
 				case ssa.CallInstruction:
 					n, _ := callName(x.Common())
-					if strings.HasSuffix(n, ".IndexOne") || strings.HasSuffix(n, ".IndexBatch") || n == "cache.SubCache.entityUpdated" || n == "cache.SubCache.indexOne" {
+					if callReaches(x, func(n string) bool {
+						return strings.HasSuffix(n, ".IndexOne") || strings.HasSuffix(n, ".IndexBatch") || n == "cache.SubCache.entityUpdated"
+					}, 0) {
 						indexes = true
 					}
+					_ = n
 					if n == "cache.SubCache.write" {
 						writes = true
 					}
@@ -440,7 +443,7 @@ func checkCacheMergeFold(c *Ctx, rule string) {
 					what = fld
 				}
 			case ssa.CallInstruction:
-				if n, _ := callName(x.Common()); strings.HasSuffix(n, ".IndexOne") {
+				if callReaches(x, func(n string) bool { return strings.HasSuffix(n, ".IndexOne") }, 0) {
 					what = "index"
 				}
 			}
